@@ -1,7 +1,95 @@
+import MythVerif.Model.Felock
 import Driver.Util
-/-! `drv_felock`: stub, to be filled in -/
+/-! `drv_felock`: trace acceptor for the full/empty lock.  `obj oM felock oC0 oC1` declares a
+felock whose mutex is named oM and whose two condition variables are oC0 / oC1. -/
 namespace Driver.Felock
+open MythVerif MythVerif.Felock
+
+structure FObj where
+  m : String
+  c0 : String
+  c1 : String
+  st : St
+
+structure Acc where
+  objs : List FObj := []
+  line : Nat := 0
+  accepted : Nat := 0
+  err : Option String := none
+
+def showPc : PC → String
+  | .idle => "idle" | .wl s => s!"wl{s}" | .chk s => s!"chk{s}" | .tw s => s!"tw{s}" | .slp s => s!"slp{s}"
+  | .got s => s!"got{s}" | .pPut => "pPut" | .cTook => "cTook" | .ms1 v => s!"ms1({v})" | .ms2 => "ms2"
+  | .lk => "lk" | .hp => "hp"
+
+def parseOpt (s : String) : Option (Option Nat) :=
+  if s == "-" then some none else (Driver.parseTag s).map some
+
+def toLbls (o : FObj) (e : Driver.Ev) : Option (List Lbl) :=
+  if e.a == o.m then
+    match e.pt, e.cur with
+    | "FE_WAL_BEGIN", some t => some [.walStart t e.v.toNat]
+    | "FE_WAL_CHECK", some t => some [.check t e.v.toNat]
+    | "FE_MARK", some t => some [.markSet t e.v.toNat]
+    | "MX_LOCK_CAS1", some t | "MX_TRY_CAS", some t =>
+        if e.v == 1 then some (if o.st.pc t == .idle then [.lockStart t, .acquire t] else [.acquire t]) else some []
+    | "MX_UNLOCK_CAS0", some t =>
+        if e.v == 1 then some (match o.st.pc t with | .tw _ => [.waitRel t] | _ => [.release t]) else some []
+    | "MX_CLEAR_BIT", some t => some (match o.st.pc t with | .tw _ => [.waitRel t] | _ => [.release t])
+    | "FE_WAL_BEGIN", none | "FE_WAL_CHECK", none | "FE_MARK", none | "MX_LOCK_CAS1", none | "MX_TRY_CAS", none
+    | "MX_UNLOCK_CAS0", none | "MX_CLEAR_BIT", none => none
+    | _, _ => some []
+  else if e.a == o.c0 || e.a == o.c1 then
+    match e.pt, e.cur, parseOpt e.b with
+    | "WAKE_DEQ", some t, some x => some [.sig t x]
+    | "WAKE_DEQ", _, _ => none
+    | _, _, _ => some []
+  else some []
+
+def applyAll (st : St) : List Lbl → Option St
+  | [] => some st
+  | l :: ls => match step st l with
+    | some st' => applyAll st' ls
+    | none => none
+
+def feedLbls (acc : Acc) (o : FObj) (ls : List Lbl) (line : String) (actor : Nat) : Acc :=
+  match applyAll o.st ls with
+  | some st' => { acc with objs := acc.objs.map (fun p => if p.m == o.m then { p with st := st' } else p),
+                           accepted := acc.accepted + ls.length }
+  | none => { acc with err := some s!"MISMATCH line {acc.line}: felock model {o.m} cannot do `{line.trimAscii.toString}`: holder={o.st.holder} status={o.st.status} cw0={o.st.cw 0} cw1={o.st.cw 1} slot={o.st.slot} pc[{actor}]={showPc (o.st.pc actor)}" }
+
+def feed (acc : Acc) (line : String) : Acc :=
+  if acc.err.isSome then acc else
+  let acc := { acc with line := acc.line + 1 }
+  match Driver.words line with
+  | ["obj", m, "felock", c0, c1] => { acc with objs := { m := m, c0 := c0, c1 := c1, st := init } :: acc.objs }
+  | ["note", _, cur, "put", m, x] =>
+    match cur.toNat?, x.toNat?, acc.objs.find? (·.m == m) with
+    | some t, some x, some o => feedLbls acc o [.put t x] line t
+    | _, _, _ => acc
+  | ["note", _, cur, "take", m, x] =>
+    match cur.toNat?, x.toNat?, acc.objs.find? (·.m == m) with
+    | some t, some x, some o => feedLbls acc o [.take t x] line t
+    | _, _, _ => acc
+  | _ =>
+  match Driver.parseEv line with
+  | none => acc
+  | some e =>
+    acc.objs.foldl (fun acc o =>
+      if acc.err.isSome then acc else
+      match toLbls o e with
+      | none => { acc with err := some s!"MISMATCH line {acc.line}: cannot attribute `{line.trimAscii.toString}`" }
+      | some [] => acc
+      | some ls => feedLbls acc o ls line (e.cur.getD 0)) acc
+
 def run (_args : List String) : IO UInt32 := do
-  IO.eprintln "drv_felock: not implemented"
-  return 2
+  let stdin ← IO.getStdin
+  let acc ← Driver.forLines stdin ({} : Acc) fun a line => pure (feed a line)
+  match acc.err with
+  | some e => IO.println e; return 0
+  | none =>
+    -- terminal: produced = slot ++ consumed is a theorem; report the counters
+    let info := acc.objs.map (fun o => s!"{o.m}:produced={o.st.produced.length},consumed={o.st.consumed.length}")
+    IO.println s!"accepted {acc.accepted} {Driver.joinSp info}"; return 0
+
 end Driver.Felock
